@@ -87,6 +87,8 @@ def run_one(pid, seed, tier, want_record=False):
         faulthandler.cancel_dump_traceback_later()
     res["seed"] = seed
     res["wall"] = time.time() - t0
+    if record is not None and res.get("record_patch"):
+        record.update(res.pop("record_patch"))
     if res["verdict"] != "ok" or want_record:
         res["record"] = record
     return res
